@@ -268,6 +268,12 @@ def check_case(ctx, case):
         L = NewType(f"VfNew{i}", L)
     desc = gt.from_json(case["tree"])
     real = pt.build(desc, (lambda p: L0(np.zeros(tuple(p[1][0])), np.zeros(tuple(p[1][1]))) if p[0] == "P" else (Boxed(payload_value(p)) if boxed and p[0] == "a" else payload_value(p))))
+    share = case.get("share")
+    if share:
+        # one and the same container object referenced from two places of the tree (`row = [...]; [row, row]`, one config dict stored
+        # under two keys): a tree like any other -- its leaves are the leaves of both occurrences
+        desc = ("list", [desc, desc]) if share == "list" else ("dict", [("k0", desc), ("k1", desc)])
+        real = [real, real] if share == "list" else {"k0": real, "k1": real}
     with jaxtyped("context"):
         m = dl.MCtx()
         for pj, shape in case["prior"]:
@@ -281,7 +287,7 @@ def check_case(ctx, case):
                 m = o.ctx
         before = obs.bindings()
         allowed, newm, info = model(lk, meanings, desc, m)
-        descr = f"L={'NewType^' + str(case['newtype']) + ' of ' if case.get('newtype') else ''}{lk}{'[' + spec + ']' if lk in ARRAYISH else ''} tree={case['tree']} prior bindings={before[0]}"
+        descr = f"{'the tree below, twice (same object) in a ' + share + '; ' if share else ''}L={'NewType^' + str(case['newtype']) + ' of ' if case.get('newtype') else ''}{lk}{'[' + spec + ']' if lk in ARRAYISH else ''} tree={case['tree']} prior bindings={before[0]}"
         # bare PyTree and the nested spelling first (on a rejected tree they must leave no trace either)
         if obs.verdict(real, PyTree) != dl.TRUE:
             raise Violation("bare-pytree", case, f"isinstance(x, PyTree) is not True for {descr}")
@@ -310,7 +316,7 @@ def check_case(ctx, case):
     subtree_leaf = lk in ("pair", "pair-any", "pair-none", "tuple-arr", "nt-arr") and "pair-subtree" in case.get("flags", [])
     nontrivial = len(dl_) >= 3 and len(set(dl_)) >= 2 and (subtree_leaf or has_empty(desc) or info.get("used_binding", False))
     ctx.note([lk, spec, case["tree"], case["prior"]], nontrivial,
-             classes=([f"newtype-{lk}"] if case.get("newtype") else []) + (["array-class-is-a-pytree-node"] if boxed else []) + [f"leaf-{lk}", f"got-{got}", f"nleaves-{min(len(dl_), 6)}"] + (["has-empty-or-none"] if has_empty(desc) else [])
+             classes=([f"newtype-{lk}"] if case.get("newtype") else []) + ([f"shared-subtree-{desc[1][0][0] if share == 'list' else desc[1][0][1][0]}"] if share else []) + (["array-class-is-a-pytree-node"] if boxed else []) + [f"leaf-{lk}", f"got-{got}", f"nleaves-{min(len(dl_), 6)}"] + (["has-empty-or-none"] if has_empty(desc) else [])
              + (["used-binding"] if info.get("used_binding") else []) + (["subtree-is-leaf"] if subtree_leaf else []),
              sample={"leaf_type": lk, "spec": spec, "tree": case["tree"], "prior_bindings": before[0], "verdict": got})
 
@@ -318,7 +324,8 @@ def check_case(ctx, case):
 @st.composite
 def c08_case(draw):
     lk = draw(st.sampled_from(LEAF_KINDS))
-    case = {"leaf": lk, "prior": [], "flags": [], "newtype": draw(st.sampled_from([0, 1, 0, 0, 2])), "boxed": draw(st.sampled_from([True, False, False]))}
+    case = {"leaf": lk, "prior": [], "flags": [], "newtype": draw(st.sampled_from([0, 1, 0, 0, 2])), "boxed": draw(st.sampled_from([True, False, False])),
+            "share": draw(st.sampled_from([None, "list", None, "dict", None, None]))}
     m = dl.MCtx()
     for _ in range(draw(st.integers(0, 3))):
         ptoks = draw(gd.legal_spec(max_axes=3, bound=sorted(m.single), names=["a", "b", "c"], vnames=["v"]))
